@@ -122,6 +122,12 @@ int32_t jls_buf_copy(struct jls_buf_s * self, const struct jls_buf_s * src) {
 }
 
 int32_t jls_buf_string_save(struct jls_buf_s * self, const char * cstr_in, char ** cstr_save) {
+    if (NULL == cstr_in) {  // absent string
+        if (NULL != cstr_save) {
+            *cstr_save = NULL;
+        }
+        return 0;
+    }
     if (NULL == self->strings_tail) {
         ROE(strings_alloc(self));
     }
